@@ -95,7 +95,7 @@ theorem selectRec_some_iff (cfg : Cfg) (fs : FS) (abs rel : Bytes) (cov : Cov) (
     selectRec cfg fs abs rel cov = some r ↔
       setMatch cfg.ignore rel = false ∧ (cfg.keep = [] ∨ setMatch cfg.keep rel = true) ∧
       (cfg.ignoreNotExisting = true → fs.exists abs = true) ∧ filterOk cfg.filter cov = true ∧
-      r = ⟨abs, bsl rel, cov⟩ := by
+      r = ⟨abs, rel, cov⟩ := by
   unfold selectRec
   by_cases h1 : setMatch cfg.ignore rel = true
   · simp [h1]
@@ -359,13 +359,119 @@ theorem absCanon_clean {fs : FS} {s rel ac : Bytes} (hs : hasRoot s = true)
       obtain ⟨np, e, hreal, _⟩ := normalizePath_shape h
       exact ⟨np, hreal, e⟩
 
+/-! ### the final step: backslashes to '/', normalised again (fix 568afd2) -/
+
+theorem finishPath_some_iff (x : Res (Option (Bytes × Bytes))) (a r : Bytes) :
+    finishPath x = .ok (some (a, r)) ↔ ∃ r0, x = .ok (some (a, r0)) ∧ finalRel r0 = some r := by
+  unfold finishPath
+  cases x with
+  | panic s => simp
+  | ok o =>
+    cases o with
+    | none => simp
+    | some ar =>
+      obtain ⟨a', r0⟩ := ar
+      simp only
+      cases hf : finalRel r0 with
+      | none => simp [hf]
+      | some r' =>
+        simp only [Res.ok.injEq, Option.some.injEq, Prod.mk.injEq]
+        constructor
+        · rintro ⟨rfl, rfl⟩; exact ⟨r0, ⟨rfl, rfl⟩, hf⟩
+        · rintro ⟨r1, ⟨rfl, rfl⟩, h⟩; rw [hf] at h; exact ⟨rfl, Option.some.inj h⟩
+
+theorem mem_of_mem_split {bs s : Bytes} (h : s ∈ split bs) : ∀ b ∈ s, b ∈ bs := by
+  induction bs generalizing s with
+  | nil => simp [split] at h; subst h; simp
+  | cons c t ih =>
+    simp only [split] at h
+    split at h
+    · rcases List.mem_cons.1 h with e | h'
+      · subst e; simp
+      · intro b hb; exact List.mem_cons_of_mem _ (ih h' b hb)
+    · split at h
+      · rename_i s0 ss heq
+        rcases List.mem_cons.1 h with e | h'
+        · subst e
+          intro b hb
+          rcases List.mem_cons.1 hb with e | hb'
+          · exact e ▸ List.mem_cons_self
+          · exact List.mem_cons_of_mem _ (ih (by rw [heq]; simp) b hb')
+        · intro b hb
+          exact List.mem_cons_of_mem _ (ih (by rw [heq]; exact List.mem_cons_of_mem _ h') b hb)
+      · simp at h; subst h; simp
+
+theorem normGo_pred (P : Bytes → Prop) {st : NPath} {cs : List Comp} {r : NPath}
+    (hst : ∀ n ∈ st.names, P n) (hcs : ∀ n, Comp.normal n ∈ cs → P n)
+    (h : normGo st cs = some r) : ∀ n ∈ r.names, P n := by
+  induction cs generalizing st with
+  | nil => simp [normGo] at h; subst h; exact hst
+  | cons c cs ih =>
+    have hcs' : ∀ n, Comp.normal n ∈ cs → P n := fun n hn => hcs n (List.mem_cons_of_mem _ hn)
+    cases c with
+    | root => simp only [normGo] at h; exact ih (by simp) hcs' h
+    | cur => simp only [normGo] at h; exact ih hst hcs' h
+    | parent =>
+      simp only [normGo] at h
+      split at h
+      · simp at h
+      · exact ih (fun n hn => hst n (List.dropLast_subset _ hn)) hcs' h
+    | normal c =>
+      simp only [normGo] at h
+      refine ih ?_ hcs' h
+      intro n hn
+      simp only [List.mem_append, List.mem_singleton] at hn
+      rcases hn with hn | hn
+      · exact hst n hn
+      · rw [hn]; exact hcs c (by simp)
+
+theorem normal_mem_components_bytes {p n : Bytes} (h : Comp.normal n ∈ components p) :
+    ∀ b ∈ n, b ∈ p := by
+  unfold components at h
+  simp only [List.mem_append, List.mem_filterMap] at h
+  rcases h with h | ⟨s, hs, hc⟩
+  · split at h
+    · simp at h
+    · split at h <;> simp at h
+  · obtain ⟨e, _⟩ := segComp_normal hc (mem_split_noSlash hs)
+    subst e; exact mem_of_mem_split hs
+
+/-- normalising introduces no byte except '/' -/
+theorem normalizePath_noBackslash {p r : Bytes} (hp : 92 ∉ p) (h : normalizePath p = some r) :
+    92 ∉ r := by
+  obtain ⟨np, e, _, hn⟩ := normalizePath_shape h
+  rw [e]
+  apply noBackslash_render
+  unfold normalizeN normalizeC at hn
+  exact normGo_pred (fun n => 92 ∉ n) (by simp)
+    (fun n hn' hb => hp (normal_mem_components_bytes hn' 92 hb)) hn
+
+theorem bsl_noBackslash (p : Bytes) : 92 ∉ bsl p := by
+  unfold bsl
+  intro h
+  obtain ⟨b, _, hb⟩ := List.mem_map.1 h
+  split at hb <;> simp_all
+
+/-- the final path is a stack of real names, and contains no backslash -/
+theorem finalRel_shape {x r : Bytes} (h : finalRel x = some r) :
+    (∃ np : NPath, r = render np ∧ ∀ n ∈ np.names, RealName n) ∧ 92 ∉ r := by
+  unfold finalRel at h
+  obtain ⟨np, e, hreal, _⟩ := normalizePath_shape h
+  exact ⟨⟨np, e, hreal⟩, normalizePath_noBackslash (bsl_noBackslash x) h⟩
+
+/-- a clean path without backslash is its own final path -/
+theorem finalRel_render {np : NPath} (hreal : ∀ n ∈ np.names, RealName n) (hbs : ∀ n ∈ np.names, 92 ∉ n) :
+    finalRel (render np) = some (render np) := by
+  unfold finalRel
+  rw [bsl_id (noBackslash_render hbs), normalizePath_render hreal]
+
 theorem resolveKey_some {cfg : Cfg} {fs : FS} {key a r : Bytes}
     (h : resolveKey cfg fs key = .ok (some (a, r))) :
-    getAbsPath fs cfg.sourceDir (keyPath cfg key) = .ok (some (a, r)) := by
+    ∃ r0, getAbsPath fs cfg.sourceDir (keyPath cfg key) = .ok (some (a, r0)) ∧ finalRel r0 = some r := by
   unfold resolveKey at h
   split at h
   · cases h
-  · exact h
+  · exact (finishPath_some_iff _ _ _).1 h
 
 theorem root_not_mem_tail (p : Bytes) : Comp.root ∉ (components p).tail := by
   have hf : Comp.root ∉ (split p).filterMap segComp := by
@@ -427,14 +533,19 @@ theorem under_clean_source {sn : List Bytes} (hsn : ∀ n ∈ sn, RealName n) {a
   simpa using ha.symm
 
 
-/-- the whole "relative under the source dir" argument -/
+/-- the whole "relative under the source dir" argument: the pair after `get_abs_path` is
+(source_dir/names, names); the reported relative path is the final form of `names`, and `names`
+itself when no name on disk contains a backslash -/
 theorem relative_under_source {cfg : Cfg} {fs : FS} {key : Bytes} {sn : List Bytes} {abs rel : Bytes}
     (hsn : ∀ n ∈ sn, RealName n) (hS : cfg.sourceDir = some (render ⟨true, sn⟩))
     (h : resolveKey cfg fs key = .ok (some (abs, rel)))
     (hunder : startsWith abs (render ⟨true, sn⟩) = true) :
-    ∃ names, (∀ n ∈ names, RealName n) ∧ rel = render ⟨false, names⟩ ∧
-      abs = render ⟨true, sn ++ names⟩ ∧ stripPrefix abs (render ⟨true, sn⟩) = some rel := by
-  obtain ⟨ac, h1, h2, h3⟩ := (getAbsPath_some_iff _ _ _ _ _).1 (resolveKey_some h)
+    ∃ names, (∀ n ∈ names, RealName n) ∧ abs = render ⟨true, sn ++ names⟩ ∧
+      stripPrefix abs (render ⟨true, sn⟩) = some (render ⟨false, names⟩) ∧
+      finalRel (render ⟨false, names⟩) = some rel ∧
+      ((∀ n ∈ names, 92 ∉ n) → rel = render ⟨false, names⟩) := by
+  obtain ⟨r0, hg, hf⟩ := resolveKey_some h
+  obtain ⟨ac, h1, h2, h3⟩ := (getAbsPath_some_iff _ _ _ _ _).1 hg
   rw [hS] at h1
   obtain ⟨np, hreal, e⟩ := absCanon_clean (hasRoot_render_true sn) h1
   -- the path is clean, so normalising it changes nothing: abs = ac
@@ -447,9 +558,14 @@ theorem relative_under_source {cfg : Cfg} {fs : FS} {key : Bytes} {sn : List Byt
   obtain ⟨t, ht⟩ := Option.isSome_iff_exists.1 hst
   simp only [hS, fixupRelPath, ht] at h3
   obtain ⟨names, hreal', e1, e2⟩ := under_clean_source hsn ht h2 h3
-  refine ⟨names, hreal', e1, e2, ?_⟩
-  rw [e1, e2, ← join_eq_render]
-  exact stripPrefix_render hsn hreal'
+  subst e1
+  refine ⟨names, hreal', e2, ?_, hf, ?_⟩
+  · rw [e2, ← join_eq_render]
+    exact stripPrefix_render hsn hreal'
+  · intro hbs
+    have := finalRel_render (np := ⟨false, names⟩) hreal' hbs
+    rw [hf] at this
+    exact Option.some.inj this
 
 /-! ### uniqueness of reported paths (C12) -/
 
@@ -464,14 +580,16 @@ theorem rewriteKey_rel_of_normal_key {cfg : Cfg} {fs : FS} (hS : cfg.sourceDir =
     (h : rewriteKey cfg fs (render np, cov) = .ok (some r)) : r.rel = render np := by
   obtain ⟨a, rl, hres, hsel⟩ := (rewriteKey_some_iff _ _ _ _).1 h
   obtain ⟨_, _, _, _, er⟩ := (selectRec_some_iff _ _ _ _ _ _).1 hsel
-  have hg := resolveKey_some hres
+  obtain ⟨r0, hg, hf⟩ := resolveKey_some hres
   have hb : bsl (render np) = render np := bsl_id (noBackslash_render hbs)
   simp only [keyPath_plain hP hM, hb, hS] at hg
   obtain ⟨ac, _, _, hn⟩ := (getAbsPath_some_iff _ _ _ _ _).1 hg
   simp only [fixupRelPath] at hn
   rw [normalizePath_render hreal] at hn
   cases hn
-  rw [er]; exact hb
+  rw [finalRel_render hreal hbs] at hf
+  cases hf
+  rw [er]
 
 theorem nodup_rel_of_injective (f : Bytes × Cov → Option Rec) (G : Bytes → Bytes)
     (m : List (Bytes × Cov)) (hm : NodupKeys m)
@@ -581,7 +699,7 @@ theorem rewriteKey_canonical_key {cfg : Cfg} {fs : FS} {sn names : List Bytes} {
     · exact (hn n h).2
   obtain ⟨a, rl, hrs, hsel⟩ := (rewriteKey_some_iff _ _ _ _).1 h
   obtain ⟨_, _, _, _, er⟩ := (selectRec_some_iff _ _ _ _ _ _).1 hsel
-  have hg := resolveKey_some hrs
+  obtain ⟨r0, hg, hf⟩ := resolveKey_some hrs
   have hb : bsl (render ⟨true, sn ++ names⟩) = render ⟨true, sn ++ names⟩ :=
     bsl_id (noBackslash_render (np := ⟨true, sn ++ names⟩) hall2)
   have hstrip := stripPrefix_render hsn1 hn1
@@ -607,10 +725,9 @@ theorem rewriteKey_canonical_key {cfg : Cfg} {fs : FS} {sn names : List Bytes} {
   simp only [hS, fixupRelPath, hstrip] at hnr
   rw [join_eq_render, normalizePath_render (np := ⟨false, names⟩) hn1] at hnr
   cases hnr
+  rw [finalRel_render (np := ⟨false, names⟩) hn1 fun n h => (hn n h).2] at hf
+  cases hf
   rw [er, ← join_eq_render]
-  exact bsl_id (by
-    rw [join_eq_render]
-    exact noBackslash_render (np := ⟨false, names⟩) fun n h => (hn n h).2)
 
 
 /-! ### globs -/
